@@ -1,4 +1,5 @@
 import Sif.Driver.Calc
+import Sif.Driver.Dist
 /-
   `sifdrv`: reads one operation per line on stdin, prints the model's answer, one line per
   operation.  Stateless families are dispatched by their first token.
@@ -8,7 +9,9 @@ open Sif.Drv
 def dispatch (toks : List String) : String :=
   match handleCalc toks with
   | some s => s
-  | none => "bad-op"
+  | none => match handleDist toks with
+    | some s => s
+    | none => "bad-op"
 
 partial def loop (h : IO.FS.Stream) (out : IO.FS.Stream) : IO Unit := do
   let line ← h.getLine
